@@ -802,9 +802,9 @@ def run_flavours(flavours, tier, seed, model_ok, rule, assumptions, race_env=Non
     if not model_ok:
         res.corr_failures.append({"relation": "model driver available", "what": "Lean library does not build", "case": None})
     cases = make_cases(flavours, tier, seed)
-    if race_env and os.environ.get(race_env) == "1":
+    if race_env and os.environ.get(race_env, "1") == "1":
         cases += clear_race_cases(flavours, tier, seed)
-        res.notes.append(f"{race_env}=1: clear() followed by operations without a barrier is included")
+        res.notes.append("clear() followed immediately by operations without a barrier is included (defect D10/D11 repaired in /repo)")
     elif race_env:
         res.notes.append(f"scenario 'clear() followed immediately by new operations, no barrier' is OFF (known finding *-clear-race); "
                          f"enable with {race_env}=1")
